@@ -1,7 +1,67 @@
 """C11 (DESIGN.md section 5): recovered displacement / strain / stress fields."""
+import random
+
+import numpy as np
+
+from common import Fraction, dyadic, rat
 import panelmat
+from panelmat import fr
+
+
+def exact(x):
+    n, d = float(x).as_integer_ratio()
+    return rat(Fraction(n, d))
+
+
+def assembly_groups(rng, n_cases):
+    """PanelAssembly.uvw/strain/stress: each panel of a group must be evaluated with its own slice of the global
+    amplitude vector.  Returns trace groups [define(panel), eval(global c + offset)]"""
+    from compmech.panel.assembly import PanelAssembly
+    groups, meta = [], []
+    for case in range(n_cases):
+        pds = []
+        for k in range(3):
+            pd = panelmat.random_pd(rng, ["plate", "cpanel"])
+            pd.update(m=rng.randint(1, 3), n=rng.randint(1, 3), y1=rat(0), Ncte=[rat(0)] * 3)
+            pd["y2"] = pd["b"]
+            pds.append(pd)
+        panels = [panelmat.build_panel(pd) for pd in pds]
+        for p, g in zip(panels, ["a", "b", "a"]):
+            p.group = g
+            p.calc_k0(silent=True)
+        ass = PanelAssembly(panels)
+        size = ass.get_size()
+        cg = [Fraction(rng.randint(-16, 16), 32) for _ in range(size)]
+        c = np.array([float(v) for v in cg])
+        ass.out_num_cores = rng.choice([1, 2, 3, 4, 7])
+        for q in ("uvw", "strain", "stress"):
+            NL = rng.random() < 0.5
+            gx, gy = rng.choice([(5, 3), (3, 2), (2, 5)])
+            if q == "uvw":
+                res = ass.uvw(c, "a", gridx=gx, gridy=gy)
+            elif q == "strain":
+                res = ass.strain(c, "a", gridx=gx, gridy=gy, NLterms=NL)
+            else:
+                res = ass.stress(c, "a", gridx=gx, gridy=gy, NLterms=NL)
+            members = [k for k in range(3) if panels[k].group == "a"]
+            ok = all(len(res[key]) == len(members) for key in res)
+            for pos, k in enumerate(members):
+                xs = np.asarray(res["x"][pos], dtype=float).ravel()
+                ys = np.asarray(res["y"][pos], dtype=float).ravel()
+                comps = [np.asarray(res[key][pos], dtype=float).ravel() for key in panelmat.FIELD_KEYS[q]]
+                req = dict(q=q, size=0, row0=0, col0=0, c=[rat(v) for v in cg], coff=panels[k].col_start,
+                           pts=[[exact(x), exact(y)] for x, y in zip(xs, ys)])
+                if q != "uvw":
+                    req["NL"] = NL
+                obs = [[dyadic(comp[i]) for comp in comps] for i in range(len(xs))]
+                groups.append((pds[k], req, obs, ok))
+                meta.append("assembly case %d panel %d %s" % (case, k, q))
+    return groups, meta
 
 
 def run(tier, seed, build):
+    rng = random.Random(seed + 11)
+    extra, _ = assembly_groups(rng, 2 if tier == "quick" else 20)
     return panelmat.run_prop("C11", ["uvw", "strain", "stress"], tier, seed, build,
-                             what="the Ritz series / Donnell kinematics the specification evaluates")
+                             what="the Ritz series / Donnell kinematics the specification evaluates",
+                             extra_observed=extra)
